@@ -625,6 +625,14 @@ func (x *Exec) callWith(e *ast.CallExpr, st *State, recvVal Value, args []Value)
 		return x.freshResult(st, resT)
 	}
 	c := x.eng.contractFor(fn)
+	if c != nil && !c.Trusted && x.c != nil && x.c.Opts["callees"] == "abstract" && len(c.Props) > 0 {
+		// a unit that only states call-site rules about a few calls: the
+		// repository's own functions under contract are left abstract here
+		// (their preconditions are not this unit's business, their
+		// postconditions are not used); library contracts still apply
+		x.abstr["callee "+key+" left abstract (opt callees abstract)"] = true
+		return x.abstractCall(e, st, key, resT, args, recvVal)
+	}
 	if c == nil {
 		if v, ok := x.tryInline(e, st, fn, recvVal, args); ok {
 			return v
